@@ -208,6 +208,8 @@ def handle (line : String) : String :=
       | .panic s => "panic " ++ s
     | _, _ => "bad-op"
   | "transform" :: rest => Cli.Wire.handleTransform rest
+  | "history" :: rest => Cli.Wire.handleHistory rest
+  | "list" :: rest => Cli.Wire.handleList rest
   | ["archive.read.stream", h] =>
     match ofHex h with
     | some b => Canon.readS (readArchiveStream b)
